@@ -25,10 +25,9 @@ def r1_census(ctx):
                 "pattern, narrowing, spread, simplify, resolver; the formatter is C17's) every unwrap/expect/panic/unreachable, slice/str indexing, "
                 "bounds assert and usize subtraction is discharged automatically or within its reviewed per-(function, kind) ceiling")
     F = ctx.facts
-    with F.raw_mode():
-        roots, reach = frontend_reach(F)
-        ctx.floor(R, "front-end functions", len(reach), 500)
-        census.run_census(ctx, R, reach, "c18.json")
+    roots, reach = frontend_reach(F)
+    ctx.floor(R, "front-end functions", len(reach), 500)
+    census.run_census(ctx, R, reach, "c18.json")
 
 
 def r2_no_unwrap_on_parsed_numbers(ctx):
@@ -123,11 +122,120 @@ def r3_errors_are_values(ctx):
         ctx.check("InternalError" in [v["name"] for v in err["variants"]], R, "compiler::Error|InternalError", "InternalError variant present", "the InternalError variant was removed")
 
 
+def r5_no_exponential_backtracking(ctx):
+    R = "R-C18-5"
+    ctx.rule(R, "parsing terminates in practice: no `alt` of the nom grammar has two alternatives that can both consume the same opening (nothing, or "
+                "one literal token) and then both descend into the SAME recursive rule that re-enters the enclosing parser — when the earlier one "
+                "fails after the descent, the later one parses the nested text again, so the time doubles with every nesting level (2^depth; the "
+                "property bounds nesting by 100). FIRST-parser / first-token sets are computed over the resolved combinator trees (rules/peg.py)")
+    from rules import peg
+    F = ctx.facts
+    G = peg.Grammar(F)
+    n_alts = 0
+    n_pairs = 0
+
+    def label(a):
+        kind, name = peg.callee_name(a)
+        if kind in ("fn", "fncall"):
+            return name.split("::")[-1]
+        inner = a
+        while kind == "nom" and name in ("map", "verify", "map_res", "cut", "context", "recognize") and inner["args"]:
+            inner = inner["args"][1] if name == "context" and len(inner["args"]) > 1 else inner["args"][0]
+            kind, name = peg.callee_name(inner)
+            if kind in ("fn", "fncall"):
+                return name.split("::")[-1]
+        firsts = sorted(x.split("::")[-1] for x in G.first(a))
+        return "%s(%s)" % (name or "expr", firsts[0] if firsts else "")
+    for g, node, alts in G.alts():
+        n_alts += 1
+        hs = [G.heads(a, g) for a in alts]
+        seen = set()
+        for i in range(len(alts)):
+            for j in range(i + 1, len(alts)):
+                n_pairs += 1
+                for (ta, ra) in hs[i]:
+                    for (tb, rb) in hs[j]:
+                        same = (ta is None and tb is None) or (ta and tb and (ta & tb))
+                        if not same or not (ra & rb):
+                            continue
+                        opener = sorted(ta & tb)[0] if ta else "start"
+                        site = "%s|%s~%s|%s" % (g, label(alts[i]), label(alts[j]), opener)
+                        if site in seen:
+                            continue
+                        seen.add(site)
+                        ctx.violated(R, site, "both alternatives consume %s and then descend into %s, which re-enters %s: a failure of the first after the "
+                                              "descent makes the second parse the nested text again — parse time doubles per nesting level" % (
+                                                  "the same token %s" % opener if ta else "nothing", sorted(c.split("::")[-1] for c in ra & rb)[:3], g.split("::")[-1]),
+                                     "%s:%d" % (F.fns[g]["file"], node.get("ln") or F.fns[g]["line"]))
+    ctx.floor(R, "alt combinators examined", n_alts, 30)
+    ctx.ok(R, "grammar|alternative pairs", "%d alt combinators, %d alternative pairs examined" % (n_alts, n_pairs))
+
+
+def r6_unify_no_self_binding(ctx):
+    R = "R-C18-6"
+    ctx.rule(R, "compilation terminates: typing::unify never binds a type variable to ITSELF — every insert of a fresh (non-widened) binding "
+                "`bindings[name] = id` taken from the concrete side is unreachable when the name of the variable that `id` resolves to equals `name` "
+                "(the `(_, Variable)` arm follows bindings and calls unify again with the resolved id: a self-binding makes it call itself with "
+                "identical arguments for ever — stack overflow, not a compile error)")
+    F = ctx.facts
+    from qvlib.facts import op_place
+    from qvlib.paths import Flow, explore
+    b = F.body("quiver_compiler::compiler::typing::unify")
+    fl = Flow(b, through_named=True)
+    fl0 = Flow(b)
+    bind = b.param_by_type(lambda ty: ty.startswith("&mut std::collections::hash::map::HashMap<alloc::string::String, usize"), what="bindings parameter")
+    conc = b.param_by_type(lambda ty: ty == "usize", 1, "concrete type id parameter")
+    n = 0
+    TC = ("Option::copied", "Option::unwrap_or", "HashMap::get", "Clone::clone", "Option::cloned", "Deref::deref")
+    for bi, t in b.calls():
+        if not (t.get("callee") or "").endswith("HashMap::insert") or len(t["args"]) < 3:
+            continue
+        recv = fl0.canon_op(t["args"][0]) or fl.canon_op(t["args"][0])
+        if not recv or recv[0] != bind:
+            continue
+        vp = op_place(t["args"][2])
+        kp = op_place(t["args"][1])
+        if not vp or not kp:
+            continue
+        vback = fl.backward({vp["l"]}, through_calls=TC)
+        srcs = fl.sources(vp["l"], through_calls=TC)
+        if any(x[0] == "call" and (x[2].get("callee") or "").endswith("typing::union_type_ids") for x in srcs):
+            continue      # widening an existing binding
+        if conc not in vback:
+            continue      # merged from a nested unification's bindings (each of which passed this rule)
+        n += 1
+        kback = fl.backward({kp["l"]}, through_calls=("Clone::clone", "Deref::deref"))
+        guard = False
+        for eb, et in b.calls():
+            c = (et.get("callee") or "")
+            if c.split("::")[-1] not in ("eq", "ne") or "PartialEq" not in c or len(et["args"]) < 2:
+                continue
+            if not b.reaches(eb, bi):
+                continue
+            sides = [fl.backward({op_place(a)["l"]}, through_calls=("Deref::deref", "Clone::clone", "TypeLookup::lookup_type", "Program::lookup_type", "Option::cloned")) if op_place(a) else set()
+                     for a in et["args"][:2]]
+            # one side: the name inside the type `id` resolves to (a lookup of something derived from the value); other side: the key's name
+            def via_lookup(sd):
+                return any(t2["dest"]["l"] in sd and (t2.get("callee") or "").endswith("lookup_type") and op_place(t2["args"][-1]) and
+                           (fl.backward({op_place(t2["args"][-1])["l"]}, through_calls=TC) & vback) for _b2, t2 in b.calls())
+            key_side = [bool(sd & kback) for sd in sides]
+            look_side = [via_lookup(sd) for sd in sides]
+            if (key_side[0] and look_side[1]) or (key_side[1] and look_side[0]):
+                equal = 1 if c.split("::")[-1] == "eq" else 0
+                r = et["dest"]["l"]
+                if all(explore(b, [(s2, {r: equal})], want="target", targets=[bi], avoid=[eb]) is None for s2 in b.succ[eb]):
+                    guard = True
+        ctx.check(guard, R, "%s|fresh-binding#%d" % (b.key, n - 1), "unreachable when the bound id resolves to the variable being bound (name equality test)",
+                  "unify can bind a type variable to itself (no reachable-only-if-different test between the inserted id's variable name and the key): "
+                  "the (_, Variable) arm then recurses with identical arguments — the compiler overflows its stack instead of reporting an error", b.loc(bi))
+    ctx.floor(R, "fresh variable bindings in unify", n, 1)
+
+
 def run(ctx):
     if os.environ.get("QV_CENSUS_GEN") == "1":
         r1_census(ctx)
         return ("table generation", "n/a")
-    ctx.run_rules([r1_census, r2_no_unwrap_on_parsed_numbers, r3_errors_are_values, r4_byte_offset_discipline])
+    ctx.run_rules([r1_census, r2_no_unwrap_on_parsed_numbers, r3_errors_are_values, r4_byte_offset_discipline, r5_no_exponential_backtracking, r6_unify_no_self_binding])
     ctx.note("NOT decided: termination of parsing/compilation and that a reported error position lies inside the input")
     return (
         "Decides the no-panic clause structurally: a deny-by-default census of every panic-capable construct reachable from parse and "
